@@ -71,6 +71,10 @@ pub struct LayoutSpec {
     pub ldb_small: bool,
     pub ldb_reopens: u8,
     pub ldb_compact: bool,
+    /// the index was written the way a node does it: records first stored as header-only or with an older position and
+    /// overwritten later, records and foreign keys written and deleted again
+    #[serde(default)]
+    pub ldb_history: bool,
 }
 
 mod optkey {
@@ -94,7 +98,7 @@ fn _use(_: &dyn Fn(&Vec<u8>)) {
 
 impl LayoutSpec {
     pub fn canonical() -> LayoutSpec {
-        LayoutSpec { files: vec![FileSlot { number: 0, pad: 5 }], assign: vec![0], order: vec![0], gaps: vec![Gap::None], lead: vec![Gap::None], xor: None, extras: Extras::default(), ldb_small: false, ldb_reopens: 0, ldb_compact: false }
+        LayoutSpec { files: vec![FileSlot { number: 0, pad: 5 }], assign: vec![0], order: vec![0], gaps: vec![Gap::None], lead: vec![Gap::None], xor: None, extras: Extras::default(), ldb_small: false, ldb_reopens: 0, ldb_compact: false, ldb_history: false }
     }
 
     /// distinct file numbers in slot order
@@ -178,6 +182,7 @@ impl LayoutSpec {
         plan.ldb_small_buffer = self.ldb_small;
         plan.ldb_reopens = self.ldb_reopens;
         plan.ldb_compact = self.ldb_compact;
+        plan.ldb_history = self.ldb_history;
         let used: std::collections::BTreeSet<u64> = numbers.iter().cloned().collect();
         let free = |start: u64| -> u64 {
             let mut n = start;
@@ -341,6 +346,8 @@ pub fn xor_key() -> BS<Option<Vec<u8>>> {
         1 => (any::<u8>(), 1usize..=16).prop_map(|(b, n)| Some(vec![b; n])),
         2 => (1usize..=64).prop_flat_map(|n| vec(any::<u8>(), n)).prop_map(Some),
         1 => prop_oneof![Just(1usize), Just(3usize), Just(7usize), Just(13usize), Just(31usize), Just(64usize)].prop_flat_map(|n| vec(any::<u8>(), n)).prop_map(Some),
+        // the statement says any length: keys longer than Bitcoin Core's 8 bytes, than a block header, than the 32 KiB read buffer
+        1 => prop_oneof![Just(65usize), Just(100usize), Just(255usize), Just(256usize), Just(1000usize), Just(4096usize), Just(32768usize), Just(32769usize), Just(70_001usize)].prop_flat_map(|n| vec(any::<u8>(), n)).prop_map(Some),
     ].boxed()
 }
 
@@ -348,8 +355,8 @@ pub fn xor_key() -> BS<Option<Vec<u8>>> {
 pub fn layout(tier: crate::gen::Tier, with_xor: bool, big_holes: bool) -> BS<LayoutSpec> {
     let nfiles = prop_oneof![3 => Just(1usize), 4 => 2usize..5, 2 => 5usize..20, 1 => 20usize..60];
     let key = if with_xor { xor_key() } else { Just(None).boxed() };
-    (nfiles, any::<u8>(), any::<u8>(), key, any::<[bool; 8]>(), (0u8..3, prop_oneof![1 => Just(u16::MAX), 3 => any::<u16>()]))
-        .prop_flat_map(move |(nf, amode, omode, xor, flags, (reopens, foreign_mask))| {
+    (nfiles, any::<u8>(), any::<u8>(), key, any::<[bool; 8]>(), (0u8..3, prop_oneof![1 => Just(u16::MAX), 3 => any::<u16>()], proptest::bool::weighted(0.4)))
+        .prop_flat_map(move |(nf, amode, omode, xor, flags, (reopens, foreign_mask, ldb_history))| {
             let assign: BS<Vec<u16>> = match amode % 4 {
                 0 => Just(vec![0u16]).boxed(),
                 1 => vec(any::<u16>(), 1..40).boxed(),
@@ -373,6 +380,7 @@ pub fn layout(tier: crate::gen::Tier, with_xor: bool, big_holes: bool) -> BS<Lay
                 ldb_small: flags[5],
                 ldb_reopens: reopens,
                 ldb_compact: flags[6],
+                ldb_history,
             })
         })
         .boxed()
